@@ -153,7 +153,7 @@ func init() {
 			"cli_status_0": 100, "cli_status_1": 100},
 		Assumptions: []string{
 			"oracle: ref.Canon under the reading of the option set; ref.EqPrec for Precision",
-			"MERGE inputs are null-free; SetKeys inputs satisfy the key precondition",
+			"SetKeys inputs satisfy the key precondition; MERGE inputs include nulls in the library leg (the biconditional is not restricted to null-free documents), the CLI leg keeps them null-free",
 			"CLI exit status 2 is accepted only for -f patch on keys JSON Pointer cannot express",
 		},
 		NeedsCLI: true,
@@ -165,13 +165,17 @@ func init() {
 			N:    qt(12000, 250000),
 			Run: func(c *mon.Ctx, i int) {
 				prof := []gen.Profile{gen.PDefault, gen.PTiny, gen.PNulls, gen.PDeep}[i%4]
-				if o.Merge {
-					prof.Scalars = withoutNull(prof.Scalars)
+				if o.Merge && i%2 == 0 {
+					prof.Scalars = withoutNull(prof.Scalars) // half null-free, half with nulls
 				}
 				if o.HasEps {
 					prof.Scalars = append(append([]any{}, numbersNear...), "a", true, nil)
 				}
 				a, b, class := eqPair(c.R, o, prof)
+				if i%9 == 8 && len(o.Keys) == 0 && !o.HasEps {
+					a, b = gen.DeepChainPair(c.R, prof, false)
+					class = "deep-chain"
+				}
 				c05Judge(c, ref.ToJSON(a), ref.ToJSON(b), o, class)
 			},
 		})
@@ -190,10 +194,6 @@ func init() {
 				b, ok2 := wrapText(y, how)
 				if !ok1 || !ok2 {
 					c.Skip("void cannot be nested")
-					return
-				}
-				if o.Merge && (ref.HasNull(ref.MustJSON(a)) || ref.HasNull(ref.MustJSON(b))) {
-					c.Skip("merge needs null-free documents")
 					return
 				}
 				c05Judge(c, a, b, o, "confusable")
